@@ -150,6 +150,9 @@ func RunTwice(c *Case) (first, second *Result, inputChanged string) {
 	return
 }
 
+// ExecOpts: the execution options (and the global set-up they need) of the case's formatter mode
+func (c *Case) ExecOpts() (opts []z.ExecOption, restore func()) { return c.execOpts() }
+
 func (c *Case) execOpts() (opts []z.ExecOption, restore func()) {
 	restore = func() {}
 	switch {
